@@ -7,7 +7,9 @@ import PcbV.Lemmas.DataRead
   `renderProg p` of an arbitrary well-formed program layout `p : Prog`:
     * statements separated by ':' or by line headers NUL ptr ptr lo hi (ptr ≠ 0), end marker NUL NUL NUL;
     * DATA statements (blanks, token, items separated by commas; an item is blank padding around either
-      unquoted text without , " : NUL or a closed quoted string without " and NUL);
+      unquoted text without , " : NUL or a closed quoted string without " and NUL, or — as the last item of
+      the last statement of a line — an unclosed quoted string `"text` that runs to the end of the line:
+      its payload is every byte between the quote and the NUL, blanks, commas and colons included);
     * other statements built from ordinary bytes, tokens with payload bytes (number constants and
       two-byte keywords, whose payload may contain any byte — ':' NUL '"' REM DATA included) and closed
       string literals (any bytes but '"' and NUL — REM and DATA bytes included), not starting with DATA;
@@ -37,6 +39,17 @@ theorem read_kth (p : Prog) (hwf : progWf p = true) (ts : List Bool) (hc : Compa
     (readVars true (renderProg p) 0 ts).vals[k]? = some (specVal ts[k] (allItems p)[k]) := by
   rw [(read_order p hwf ts hc).1]
   simp [List.getElem?_zipWith, hk, hk']
+
+/-- the payload of an unclosed quoted item `"text` at the end of a line is exactly the bytes between the
+    opening quote and the end of the line (nothing cut, nothing added), wherever it stands in the program -/
+theorem read_open_quoted (p : Prog) (hwf : progWf p = true) (ts : List Bool) (hc : CompatAll ts (allItems p))
+    (k : Nat) (hk : k < ts.length) (hk' : k < (allItems p).length) (l t : Bytes)
+    (hit : (allItems p)[k] = .opn l t) (hs : ts[k] = true) :
+    (Item.opn l t).render = l ++ QUOTE :: t ∧
+    (readVars true (renderProg p) 0 ts).vals[k]? = some (.str t) := by
+  refine ⟨rfl, ?_⟩
+  rw [read_kth p hwf ts hc k hk hk', hit, hs]
+  rfl
 
 /-- **restore_spec.** RESTORE (whatever the pointer was) sets the pointer so that the following READs
     return the items from the first one on. -/
@@ -126,7 +139,7 @@ theorem syntax_error_on_data_line_partial (p : Prog) (hwf : progWf p = true) (ts
     rw [← List.head?_drop, hni] at hit
     simp only [List.head?_cons, Option.some.injEq] at hit
     subst hit
-    obtain ⟨hitwf, hc1wf⟩ := next_wf c' hw' it' c1 hn
+    obtain ⟨hitwf, hc1wf, hfit⟩ := next_wf c' hw' it' c1 hn
     obtain ⟨pre, b, hsplit, hb⟩ := next_split c' it' c1 hn
     obtain ⟨q, hq⟩ := hs'
     have hcode : renderProg p = (q ++ pre) ++ b :: (it'.render ++ c1.render) := by
@@ -146,7 +159,7 @@ theorem syntax_error_on_data_line_partial (p : Prog) (hwf : progWf p = true) (ts
       have he := readEntry_cursor (renderProg p) c' hw' ⟨q, hq⟩ true
       rw [hn] at he
       simp only at he
-      rw [readItem_str true _ _ _ _ hitwf (cursor_delim c1)] at he
+      rw [readItem_str true _ _ _ _ hitwf (cursor_delim c1) hfit] at he
       simp [readVars, he]
 
 /-- **restore_line.** `RESTORE n` (n a possible line number), on the line table of the layout:
@@ -188,7 +201,7 @@ theorem restore_line (p : Prog) (hwf : progWf p = true) (n : Nat) (hn : n < 6553
       have h1 : (⟨[], (sep, st) :: p2⟩ : Cursor).items = allItems ((sep, st) :: p2) := by simp [Cursor.items]
       have hcode : renderProg p = renderStmts p1 ++ renderProg ((sep, st) :: p2) := by
         rw [hp, renderProg_append]
-      have := readVars_cursor (renderProg p) ts ⟨[], (sep, st) :: p2⟩ (by simpa [Cursor.wf] using hq)
+      have := readVars_cursor (renderProg p) ts ⟨[], (sep, st) :: p2⟩ (by simp [Cursor.wf, hq, itemsOk])
         (by rw [h0, hcode]; exact List.suffix_append _ _) (by rw [h1]; exact hc)
       rw [h0, h1] at this
       obtain ⟨c', hr, -⟩ := this
@@ -252,10 +265,17 @@ def sample : Prog :=
    (.colon, .data [] (.unq [32] [53] []) [.quo [] [97, 44, 58, 98] [32], .unq [32] [99, 32, 100] [32, 32], .unq [] [] []]),
    (.line 140 18 20 0, .other [.plain 88, .plain 231, .tok 15 [58]]),
    (.colon, .data [] (.unq [32] [] []) []),
-   (.line 150 18 30 0, .rem [] [32, 120])]
+   (.line 150 18 30 0, .rem [] [32, 120]),
+   (.line 160 18 40 0, .data [] (.unq [32] [55] []) [.opn [32, 32] [100, 58, 32, 44, 120, 32]])]   -- 40 DATA 7,  "d: ,x␠
 
 example : progWf sample = true := by decide
-example : (allItems sample).map Item.sval = [[53], [97, 44, 58, 98], [99, 32, 100], [], []] := by decide
+example : (allItems sample).map Item.sval =
+    [[53], [97, 44, 58, 98], [99, 32, 100], [], [], [55], [100, 58, 32, 44, 120, 32]] := by decide
+/-- the unclosed quoted item at the end of line 40 is returned in full, trailing blank included -/
+example : (readVars true (renderProg sample) 0 [false, true, true, false, true, false, true]).vals =
+    [.num [53], .str [97, 44, 58, 98], .str [99, 32, 100], .num [], .str [], .num [55],
+     .str [100, 58, 32, 44, 120, 32]] := by decide
+example : CompatAll [false, true, true, false, true, false, true] (allItems sample) := by decide
 example : CompatAll [false, true, true, false, true] (allItems sample) := by decide
 example : (readVars true (renderProg sample) 0 [false, true, true, false, true]).vals =
     [.num [53], .str [97, 44, 58, 98], .str [99, 32, 100], .num [], .str []] := by decide
